@@ -89,6 +89,13 @@ def run(tier, seed, replay=None):
                 chk.violation("oracle", f"[search loops] the search did not terminate within the time limit: {describe(c, o)}",
                               {"component": "termination", "driver": "search", "case": c, "observed": o}, True)
                 break
+    if not replay:
+        # known finding F23: its witness is replayed on the implementation; it is reported only while it still fails
+        for k in core.known_findings("C14"):
+            if k["id"] == "F23":
+                w = core.run_impl("search", {"cases": [k["witness"]]})
+                if isinstance(w, list) and w[0].get("exc") == "Timeout":
+                    chk.known_hit.append(f"{k['id']}: {k['what_fails']}")
     if replay and outs:
         print("replayed:", describe(cases[0], outs[0]))
         print("correspondence", "FAILS" if corr else "ok", "| contract", "FAILS" if orac else "holds")
